@@ -23,14 +23,16 @@ type RoundTrip struct {
 
 // Session is a sequence of jd processes on one simulated disk.
 type Session struct {
-	Kind      string     `json:"kind"`
-	Sector    int        `json:"sector"`
-	FileChunk int        `json:"file_chunk,omitempty"`
-	StdoutTTY bool       `json:"stdout_tty,omitempty"` // stdout is a terminal (or /dev/null): a character device
-	Files     []File     `json:"files"`
-	Dirs      []string   `json:"dirs,omitempty"`
-	Procs     []ProcSpec `json:"procs"`
-	RT        *RoundTrip `json:"round_trip,omitempty"`
+	Kind      string      `json:"kind"`
+	Sector    int         `json:"sector"`
+	FileChunk int         `json:"file_chunk,omitempty"`
+	StdoutTTY bool        `json:"stdout_tty,omitempty"` // stdout is a terminal (or /dev/null): a character device
+	Env       [][2]string `json:"env,omitempty"`        // environment variables of every process
+	Arg0      string      `json:"arg0,omitempty"`       // how the binary is called
+	Files     []File      `json:"files"`
+	Dirs      []string    `json:"dirs,omitempty"`
+	Procs     []ProcSpec  `json:"procs"`
+	RT        *RoundTrip  `json:"round_trip,omitempty"`
 }
 
 // Variant selects which clause of C14 a case evaluates.
@@ -104,7 +106,10 @@ func runSession(s Session, fs *simos.FS, withModel bool, stopAfterFault bool) *s
 		if withModel {
 			r.Exp = append(r.Exp, cliModel(p.Bin, p.Arg0, p.Argv, fs, in))
 		}
-		res := runProc(fs, p, IOCfg{s.Sector, s.FileChunk, s.StdoutTTY}, prev)
+		if p.Arg0 == "" {
+			p.Arg0 = s.Arg0
+		}
+		res := runProc(fs, p, IOCfg{s.Sector, s.FileChunk, s.StdoutTTY, s.Env}, prev)
 		r.Res = append(r.Res, res)
 		r.FSPost = append(r.FSPost, fs.Clone())
 		r.Log = append(r.Log, eventLog(i, res)...)
